@@ -178,9 +178,52 @@ class _Return(Exception):
         self.value = value
 
 
+class FStr(str):
+    """a formatted string: still a string for every consumer, but it remembers the values formatted into it"""
+
+    def __new__(cls, text, parts=()):
+        o = str.__new__(cls, text)
+        o.parts = list(parts)
+        return o
+
+
+EXC_PARENTS = {
+    "BaseException": None, "Exception": "BaseException", "KeyboardInterrupt": "BaseException", "SystemExit": "BaseException",
+    "OSError": "Exception", "IOError": "OSError", "FileNotFoundError": "OSError", "PermissionError": "OSError", "FileExistsError": "OSError",
+    "EOFError": "Exception", "ValueError": "Exception", "TypeError": "Exception", "RuntimeError": "Exception", "AttributeError": "Exception",
+    "LookupError": "Exception", "KeyError": "LookupError", "IndexError": "LookupError", "ImportError": "Exception", "ModuleNotFoundError": "ImportError",
+    "ArithmeticError": "Exception", "ZeroDivisionError": "ArithmeticError", "OverflowError": "ArithmeticError", "FloatingPointError": "ArithmeticError",
+    "BadZipFile": "Exception", "error": "Exception", "UnpicklingError": "PickleError", "PickleError": "Exception", "StopIteration": "Exception",
+    "NotImplementedError": "RuntimeError", "UnicodeDecodeError": "ValueError", "MemoryError": "Exception", "AssertionError": "Exception",
+}
+
+
+def exc_ancestors(name):
+    name = (name or "Exception").split(".")[-1]
+    out = [name]
+    cur = EXC_PARENTS.get(name, "Exception")
+    while cur is not None:
+        out.append(cur)
+        cur = EXC_PARENTS.get(cur)
+    return out
+
+
 class _Raise(Exception):
-    def __init__(self, node, desc):
+    def __init__(self, node, desc, exc_name=None):
         self.node, self.desc = node, desc
+        self.exc_name = exc_name
+
+
+def raise_exc(name, node=None, desc=None):
+    """for stubs: the modelled call raises exception `name`"""
+    return _Raise(node, desc or "%s (injected fault)" % name, exc_name=name)
+
+
+class _LoopCtl(Exception):
+    """continue / break inside an unrolled loop"""
+
+    def __init__(self, kind, node):
+        self.kind, self.node = kind, node
 
 
 class PathResult:
@@ -387,16 +430,43 @@ class Interp:
         saved = (getattr(self, "cur_mod", None), getattr(self, "cur_fn", None), getattr(self, "cur_imports", None))
         self.cur_mod, self.cur_fn = module, fn
         self.cur_imports = module.local_imports(fn)
+        is_gen = _is_generator(fn)
+        if is_gen:
+            self.__dict__.setdefault("yield_stack", []).append([])
         try:
             try:
                 self.exec_block(fn.body, env)
                 ret = None
             except _Return as r:
                 ret = r.value
+            if is_gen:
+                ret = Tup(self.yield_stack[-1], "list")
         finally:
+            if is_gen:
+                self.yield_stack.pop()
             self.cur_mod, self.cur_fn, self.cur_imports = saved
         self.last_env = env
         return ret
+
+    def ev_Yield(self, node, env):
+        if not getattr(self, "yield_stack", None):
+            raise AnalysisError("yield outside a generator function")
+        v = self.eval(node.value, env) if node.value is not None else None
+        if self.loop_stack:
+            L = self.loop_stack[-1]
+            self.yield_stack[-1].append(GenList(v, L.ivar, L.rng))
+        else:
+            self.yield_stack[-1].append(v)
+        return None
+
+    def ev_YieldFrom(self, node, env):
+        if not getattr(self, "yield_stack", None):
+            raise AnalysisError("yield outside a generator function")
+        v = self.eval(node.value, env)
+        if isinstance(v, Tup) and v.kind != "dict":
+            self.yield_stack[-1].extend(v.items)
+            return None
+        raise AnalysisError("yield from %r not modelled" % (v,))
 
     def bind(self, module, fn, args, kwargs):
         a = fn.args
@@ -472,7 +542,11 @@ class Interp:
         elif isinstance(s, ast.Return):
             raise _Return(self.eval(s.value, env) if s.value is not None else None)
         elif isinstance(s, ast.Raise):
-            raise _Raise(s, self.cur_mod.segment(s.exc) if s.exc is not None else "re-raise")
+            if s.exc is None:
+                cur = self.handling[-1] if getattr(self, "handling", None) else None
+                raise _Raise(s, cur.desc if cur is not None else "re-raise", exc_name=cur.exc_name if cur is not None else None)
+            e = s.exc.func if isinstance(s.exc, ast.Call) else s.exc
+            raise _Raise(s, self.cur_mod.segment(s.exc), exc_name=(dotted_name(e) or "Exception").split(".")[-1])
         elif isinstance(s, (ast.Import, ast.ImportFrom, ast.Pass, ast.Global, ast.Nonlocal)):
             return
         elif isinstance(s, ast.FunctionDef):
@@ -484,17 +558,51 @@ class Interp:
                     self.assign(it.optional_vars, v, env)
             self.exec_block(s.body, env)
         elif isinstance(s, ast.Try):
-            # the analysed numerical paths contain no try; interpret the body only
-            self.event("try", s, "try statement: body interpreted, handlers ignored")
-            self.exec_block(s.body, env)
-            self.exec_block(s.orelse, env)
-            self.exec_block(s.finalbody, env)
+            self.exec_try(s, env)
+        elif isinstance(s, (ast.Continue, ast.Break)):
+            raise _LoopCtl(type(s).__name__, s)
         elif isinstance(s, ast.Assert):
             return
         elif isinstance(s, ast.Delete):
             return
         else:
             raise AnalysisError("%s:%d: statement kind %s not modelled" % (self.cur_mod.name, s.lineno, type(s).__name__))
+
+    def exec_try(self, s, env):
+        """try/except/else/finally for modelled exceptions (explicit `raise` statements and faults injected by stubs)"""
+        self.event("try", s, "try statement")
+        try:
+            try:
+                self.exec_block(s.body, env)
+            except _Raise as r:
+                anc = exc_ancestors(r.exc_name)
+                chosen = None
+                for h in s.handlers:
+                    if h.type is None:
+                        chosen = h
+                        break
+                    types = h.type.elts if isinstance(h.type, ast.Tuple) else [h.type]
+                    names = {(dotted_name(t) or "?").split(".")[-1] for t in types}
+                    if names & set(anc):
+                        chosen = h
+                        break
+                if chosen is None:
+                    raise
+                self.event("caught", chosen, (r.exc_name, r.desc))
+                if chosen.name:
+                    env[chosen.name] = Opaque("exception", {"class_name": r.exc_name})
+                self.__dict__.setdefault("handling", []).append(r)
+                try:
+                    self.exec_block(chosen.body, env)
+                finally:
+                    self.handling.pop()
+            else:
+                self.exec_block(s.orelse, env)
+        except (_Raise, _Return, _LoopCtl):
+            self.exec_block(s.finalbody, env)
+            raise
+        else:
+            self.exec_block(s.finalbody, env)
 
     def assign(self, target, v, env):
         if isinstance(target, ast.Name):
@@ -595,16 +703,27 @@ class Interp:
         if isinstance(it, Tup):
             elems = it.items
         if elems is not None and len(elems) <= 16:
+            broke = False
             for x in elems:
                 self.assign(s.target, x, env)
-                self.exec_block(s.body, env)
+                try:
+                    self.exec_block(s.body, env)
+                except _LoopCtl as c:
+                    if c.kind == "Break":
+                        broke = True
+                        break
+            if not broke:
+                self.exec_block(s.orelse, env)
             return
         before = dict(env)
         gen = Unknown("element of %s" % (ast.dump(s.iter)[:40],))
         if isinstance(it, Arr):
             gen = it.val
         self.assign(s.target, gen, env)
-        self.exec_block(s.body, env)
+        try:
+            self.exec_block(s.body, env)
+        except _LoopCtl as c:
+            raise AnalysisError("%s:%d: %s in a loop that is summarised by one generic iteration is not modelled" % (self.cur_mod.name, c.node.lineno, c.kind.lower()))
         for k, v in list(env.items()):
             if k in before and v is not before[k] and not isinstance(v, Arr):
                 env[k] = Unknown("loop-carried %s" % k)
@@ -636,6 +755,8 @@ class Interp:
         self.loop_stack.append(L)
         try:
             self.exec_block(s.body, env)
+        except _LoopCtl as c:
+            raise AnalysisError("%s:%d: %s in a range loop is not modelled" % (self.cur_mod.name, c.node.lineno, c.kind.lower()))
         finally:
             self.loop_stack.pop()
         if s.orelse:
@@ -801,6 +922,16 @@ class Interp:
     def store_subscript(self, target, v, env):
         base = target.value
         if not isinstance(base, ast.Name):
+            try:
+                arr = self.eval(base, env)
+            except AnalysisError:
+                arr = None
+            if isinstance(arr, Tup) and arr.kind == "dict":
+                self._dict_store(arr, self.eval(target.slice, env), v, target)
+                return
+            if isinstance(arr, Opaque):
+                self.event("item-store", target, (ast.unparse(base), self.eval(target.slice, env), v))
+                return
             self.event("unsupported", target, "store into non-name base")
             return
         arr = env.get(base.id)
@@ -808,12 +939,7 @@ class Interp:
             self.event("item-store", target, (base.id, self.eval(target.slice, env), v))
             return
         if isinstance(arr, Tup) and arr.kind == "dict":
-            key = self.eval(target.slice, env)
-            for i, (k, _) in enumerate(arr.items):
-                if key_equal(k, key):
-                    arr.items[i] = (key, v)
-                    return
-            arr.items.append((key, v))
+            self._dict_store(arr, self.eval(target.slice, env), v, target)
             return
         if not isinstance(arr, Arr):
             self.event("unsupported", target, "store into %r" % (arr,))
@@ -829,6 +955,16 @@ class Interp:
             env[base.id] = new
             self._rebind_in_containers(env, arr, new)
 
+    def _dict_store(self, arr, key, v, target):
+        if self.loop_stack:
+            # a dictionary filled inside a loop carries state from one iteration to the next
+            self.event("loop-dict-store", target, (key, v, self.loop_stack[-1], id(arr)))
+        for i, (k, _) in enumerate(arr.items):
+            if key_equal(k, key):
+                arr.items[i] = (key, v)
+                return
+        arr.items.append((key, v))
+
     def _rebind_in_containers(self, env, old, new):
         for v in env.values():
             if isinstance(v, Tup):
@@ -839,7 +975,10 @@ class Interp:
     def eval_index(self, node, env):
         if isinstance(node, ast.Tuple):
             return [self.eval_index_item(e, env) for e in node.elts]
-        return [self.eval_index_item(node, env)]
+        it = self.eval_index_item(node, env)
+        if isinstance(it, Tup) and it.kind == "tuple" and all(isinstance(x, Expr) or x is None for x in it.items):
+            return list(it.items)  # a[t] with t a tuple indexes one axis per entry
+        return [it]
 
     def eval_index_item(self, e, env):
         if isinstance(e, ast.Slice):
@@ -938,6 +1077,21 @@ class Interp:
         if isinstance(node, ast.Call) and (dotted_name(node.func) or "").split(".")[-1] in ("dict", "OrderedDict") and not node.args and not node.keywords:
             st = self.__dict__.setdefault("modstate", {})
             return st.setdefault((m.name, name), Tup([], "dict"))
+        if isinstance(node, (ast.Tuple, ast.List, ast.Dict, ast.Set)) and all(
+                isinstance(x, (ast.Constant, ast.Tuple, ast.List, ast.Dict, ast.Set, ast.UnaryOp, ast.Load, ast.USub, ast.UAdd)) for x in ast.walk(node)):
+            # literal table: tuples are immutable values, the mutable kinds are one object per abstract run
+            st = self.__dict__.setdefault("modstate", {})
+            key = (m.name, name)
+            if key not in st:
+                saved = self.cur_mod
+                self.cur_mod = m
+                try:
+                    st[key] = self.eval(node, {})
+                except AnalysisError:
+                    st[key] = Opaque("%s.%s" % (m.name, name))
+                finally:
+                    self.cur_mod = saved
+            return st[key]
         return Opaque("%s.%s" % (m.name, name))
 
     def resolve_dotted(self, dotted):
@@ -1001,6 +1155,14 @@ class Interp:
                         return self.call_package(fr, [base], {}, node)
                     if isinstance(n, ast.FunctionDef) and n.name == attr:
                         return FuncRef("method", base.name + "." + attr, bound=base)
+                    if isinstance(n, ast.Assign) and any(isinstance(t, ast.Name) and t.id == attr for t in n.targets):
+                        # class-level constant
+                        saved_mod = self.cur_mod
+                        self.cur_mod = m
+                        try:
+                            return self.eval(n.value, {})
+                        finally:
+                            self.cur_mod = saved_mod
                 if base.attrs.get("__strict__"):
                     raise AnalysisError("%s:%s: %s has no attribute %s" % (self.cur_mod.name, getattr(node, "lineno", "?"), base.name, attr))
             return FuncRef("method", base.name + "." + attr, bound=base)
@@ -1059,7 +1221,18 @@ class Interp:
         return SetV(out)
 
     def ev_JoinedStr(self, node, env):
-        return "<fstring>"
+        parts = []
+        for v in node.values:
+            if isinstance(v, ast.Constant):
+                parts.append(v.value)
+            elif isinstance(v, ast.FormattedValue):
+                try:
+                    parts.append(self.eval(v.value, env))
+                except AnalysisError:
+                    parts.append(Unknown("f-string field"))
+        if all(type(p) is str and not p.startswith("<") for p in parts):
+            return "".join(parts)
+        return FStr("<fstring>", parts)
 
     def ev_UnaryOp(self, node, env):
         v = self.eval(node.operand, env)
@@ -1182,7 +1355,9 @@ class Interp:
                 if a.as_const() is not None and all(x.as_const() is not None for x in b.items):
                     return False
             if b.kind == "dict":
-                return any(key_equal(k, a) for k, _ in b.items)  # the abstract mapping is known completely
+                if self.loop_stack:
+                    self.event("loop-dict-read", node, (a, id(b)))
+                return any(key_equal(k, a) for k, _ in b.items)  # the abstract mapping is known completely (outside loops)
             return Member(a, id(b), "tuple", False)
         if isinstance(b, Arr) and isinstance(a, Expr):
             return Member(a, b.meta.get("ident", id(b)), b.name or "array", True, container=b)
@@ -1221,6 +1396,8 @@ class Interp:
             return self.np.load(self, base, idx, node, env)
         if isinstance(base, Opaque):
             key = self.eval(node.slice, env)
+            if base.attrs.get("fault"):
+                raise raise_exc(base.attrs["fault"], node, "reading %s[%r] raises %s" % (base.name, key, base.attrs["fault"]))
             if "items" in base.attrs and isinstance(key, str) and key in base.attrs["items"]:
                 return base.attrs["items"][key]
             if "getitem" in base.attrs:
@@ -1276,47 +1453,87 @@ class Interp:
     def ev_Lambda(self, node, env):
         return FuncRef("lambda", "<lambda>", self.cur_mod, node, bound=env)
 
+    def _comp_items(self, gens, env, leaf):
+        """items produced by the generators `gens` (in order), `leaf(env)` giving one item; None when not modelled"""
+        if not gens:
+            return [leaf(env)]
+        g = gens[0]
+        it = self.eval(g.iter, env)
+
+        def conds(e2):
+            """True / False when all `if` clauses are decided, None otherwise"""
+            for c in g.ifs:
+                t = self.eval(c, e2)
+                if isinstance(t, Expr) and t.as_const() is not None:
+                    t = t.as_const() != 0
+                if isinstance(t, (str, Tup)):
+                    t = bool(t.items if isinstance(t, Tup) else t)
+                if t is None:
+                    t = False
+                if not isinstance(t, bool):
+                    return None
+                if not t:
+                    return False
+            return True
+
+        if isinstance(it, Tup) and it.kind == "dict":
+            it = Tup([k for k, _ in it.items], "list")
+        if isinstance(it, Tup):
+            out = []
+            for x in it.items:
+                e2 = dict(env)
+                if isinstance(x, GenList):
+                    if g.ifs or len(gens) > 1:
+                        return None
+                    self.assign(g.target, x.elem, e2)
+                    out.append(GenList(leaf(e2), x.ivar, x.rng))
+                    continue
+                self.assign(g.target, x, e2)
+                c = conds(e2)
+                if c is None:
+                    return None
+                if not c:
+                    continue
+                sub = self._comp_items(gens[1:], e2, leaf)
+                if sub is None:
+                    return None
+                out.extend(sub)
+            return out
+        if g.ifs or len(gens) > 1:
+            return None
+        if isinstance(it, RangeV):
+            self._loop_ids += 1
+            iv = alg._atom("sym", "j#%d" % self._loop_ids, (), pos=False, real=True, integer=True)
+            e2 = dict(env)
+            self.assign(g.target, it.start + alg.atom_expr(iv) * it.step, e2)
+            return [GenList(leaf(e2), iv, it)]
+        if isinstance(it, GenList):
+            e2 = dict(env)
+            self.assign(g.target, it.elem, e2)
+            return [GenList(leaf(e2), it.ivar, it.rng)]
+        return None
+
     def ev_ListComp(self, node, env):
-        if len(node.generators) == 1 and not node.generators[0].ifs:
-            g = node.generators[0]
-            it = self.eval(g.iter, env)
-            if isinstance(it, Tup) and it.kind != "dict":
-                out = []
-                for x in it.items:
-                    e2 = dict(env)
-                    if isinstance(x, GenList):
-                        self.assign(g.target, x.elem, e2)
-                        out.append(GenList(self.eval(node.elt, e2), x.ivar, x.rng))
-                        continue
-                    self.assign(g.target, x, e2)
-                    out.append(self.eval(node.elt, e2))
-                return Tup(out, "list")
-            if isinstance(it, RangeV):
-                self._loop_ids += 1
-                iv = alg._atom("sym", "j#%d" % self._loop_ids, (), pos=False, real=True, integer=True)
-                e2 = dict(env)
-                self.assign(g.target, it.start + alg.atom_expr(iv) * it.step, e2)
-                return Tup([GenList(self.eval(node.elt, e2), iv, it)], "list")
-            if isinstance(it, GenList):
-                e2 = dict(env)
-                self.assign(g.target, it.elem, e2)
-                return Tup([GenList(self.eval(node.elt, e2), it.ivar, it.rng)], "list")
-        return Unknown("comprehension")
+        items = self._comp_items(node.generators, env, lambda e2: self.eval(node.elt, e2))
+        if items is None:
+            return Unknown("comprehension")
+        return Tup(items, "list")
 
     ev_GeneratorExp = ev_ListComp
 
     def ev_DictComp(self, node, env):
-        if len(node.generators) == 1 and not node.generators[0].ifs:
-            g = node.generators[0]
-            it = self.eval(g.iter, env)
-            if isinstance(it, Tup) and it.kind != "dict" and not any(isinstance(x, GenList) for x in it.items):
-                out = []
-                for x in it.items:
-                    e2 = dict(env)
-                    self.assign(g.target, x, e2)
-                    out.append((self.eval(node.key, e2), self.eval(node.value, e2)))
-                return Tup(out, "dict")
-        return Unknown("dict comprehension")
+        items = self._comp_items(node.generators, env, lambda e2: (self.eval(node.key, e2), self.eval(node.value, e2)))
+        if items is None or any(isinstance(x, GenList) for x in items):
+            return Unknown("dict comprehension")
+        out = Tup([], "dict")
+        for k, v in items:
+            for i, (k0, _) in enumerate(out.items):
+                if key_equal(k0, k):
+                    out.items[i] = (k, v)
+                    break
+            else:
+                out.items.append((k, v))
+        return out
 
     def ev_Starred(self, node, env):
         raise AnalysisError("starred expression outside call/tuple")
@@ -1331,7 +1548,13 @@ class Interp:
             return b
         if isinstance(a, Arr) or isinstance(b, Arr):
             return self.np.elementwise(self, op, a, b, node)
+        if isinstance(op, ast.Div) and isinstance(a, Opaque) and isinstance(b, (str, Opaque)):
+            return Opaque("path", {"of": Tup([a, Tup(b.parts) if isinstance(b, FStr) else b])})
         if isinstance(a, str) or isinstance(b, str):
+            if isinstance(op, ast.Add) and isinstance(a, str) and isinstance(b, str):
+                if type(a) is str and type(b) is str and not a.startswith("<") and not b.startswith("<"):
+                    return a + b
+                return FStr("<str>", (a.parts if isinstance(a, FStr) else [a]) + (b.parts if isinstance(b, FStr) else [b]))
             return "<str>"
         if isinstance(a, Tup) and isinstance(b, Tup) and isinstance(op, ast.Add):
             return Tup(a.items + b.items, a.kind)
@@ -1394,8 +1617,10 @@ class Interp:
                 v = self.eval(k.value, env)
                 if isinstance(v, Opaque) and v.name == "kwargs":
                     kwargs.update(v.attrs)
+                elif isinstance(v, Tup) and v.kind == "dict" and all(isinstance(kk, str) for kk, _ in v.items):
+                    kwargs.update({kk: vv for kk, vv in v.items})
                 else:
-                    return Unknown("**kwargs call")
+                    raise AnalysisError("%s:%d: call with ** of a mapping that is not known entry by entry" % (self.cur_mod.name, node.lineno))
             else:
                 kwargs[k.arg] = self.eval(k.value, env)
         return self.call(f, args, kwargs, node, env)
@@ -1412,6 +1637,7 @@ class Interp:
         self.calls.append((f.dotted, args, kwargs, node, self.seq))
         stub = self.stubs.get(f.dotted)
         if stub is not None:
+            self.cur_callee = f
             return stub(self, args, kwargs, node)
         if f.kind in ("pkg", "closure", "lambda"):
             return self.call_package(f, args, kwargs, node)
@@ -1461,7 +1687,7 @@ BUILTINS = {
     "len", "int", "float", "max", "min", "range", "tuple", "list", "str", "isinstance", "getattr", "abs",
     "enumerate", "zip", "sum", "bool", "dict", "set", "sorted", "print", "any", "all", "ValueError",
     "RuntimeError", "FileNotFoundError", "TypeError", "Exception", "hasattr", "round", "open", "repr", "type",
-    "complex", "reversed", "map", "id", "KeyError", "IndexError", "ImportError",
+    "complex", "reversed", "map", "id", "next", "iter", "KeyError", "IndexError", "ImportError",
 }
 
 EXT_MODULES = {"numpy", "np", "math", "scipy", "numba", "pyfftw", "os", "logging", "warnings", "hashlib", "pathlib",
@@ -1473,6 +1699,7 @@ EXT_CONSTS = {
     "numpy.pi": lambda: alg.atom_expr(alg.PI),
     "math.pi": lambda: alg.atom_expr(alg.PI),
     "numpy.newaxis": lambda: None,
+    "dataclasses.MISSING": lambda: __import__("npsem").MISSING,
     "numpy.nan": lambda: alg.sym("nan"),
     "numpy.inf": lambda: alg.sym("inf", pos=True),
     "numpy.complex128": lambda: "complex128",
@@ -1599,6 +1826,36 @@ alg.register_rebuild("Sum", sum_atom)
 def reset_state():
     alg.reset()
     del _SIGS[:]
+
+
+def _is_generator(fn):
+    stack = list(fn.body)
+    while stack:
+        n = stack.pop()
+        if isinstance(n, (ast.Yield, ast.YieldFrom)):
+            return True
+        if isinstance(n, (ast.FunctionDef, ast.AsyncFunctionDef, ast.Lambda, ast.ClassDef)):
+            continue
+        stack.extend(ast.iter_child_nodes(n))
+    return False
+
+
+def has_unknown(v, depth=0):
+    """does an abstract value contain a part the interpreter could not model?  Checks use this to answer
+    'uninterpretable' (exit 2) instead of 'violated' when a comparison fails on such a value"""
+    if isinstance(v, Unknown):
+        return True
+    if depth > 6:
+        return False
+    if isinstance(v, Tup):
+        return any(has_unknown(x[1] if isinstance(x, tuple) else x, depth + 1) or (isinstance(x, tuple) and has_unknown(x[0], depth + 1)) for x in v.items)
+    if isinstance(v, GenList):
+        return has_unknown(v.elem, depth + 1)
+    if isinstance(v, Arr):
+        return isinstance(v.val, Unknown)
+    if isinstance(v, Opaque):
+        return any(has_unknown(x, depth + 1) for k, x in v.attrs.items() if k != "__class__")
+    return False
 
 
 def key_equal(a, b):
